@@ -203,6 +203,13 @@ func (cli *Client) Enroll(c net.Conn) (Conn, error) {
 func (cli *Client) EnrollContext(c net.Conn, ctx any) (Conn, error) {
 	defer c.Close() //nolint:errcheck
 
+	if cli.eng.eventLoops.len() == 0 {
+		return nil, errorx.ErrEmptyEngine
+	}
+	if cli.eng.isShutdown() {
+		return nil, errorx.ErrEngineInShutdown
+	}
+
 	sc, ok := c.(syscall.Conn)
 	if !ok {
 		return nil, errors.New("failed to convert net.Conn to syscall.Conn")
